@@ -1,4 +1,5 @@
 import TinyVerif.Model.Time
+import TinyVerif.Gen.TimePure
 import TinyVerif.Drv.Common
 open TinyVerif TinyVerif.Time
 
@@ -19,29 +20,67 @@ def parseResp : List String → Option (List SleepResp)
   | "err" :: c :: rest => do let c ← c.toNat?; let r ← parseResp rest; pure (.err c :: r)
   | _ => none
 
-def step (release : Bool) (line : String) : Bool × String :=
+structure St where
+  release : Bool := false
+  /-- evaluate the definitions generated from the Rust text (Gen/TimePure.lean) instead of the hand-written model -/
+  gen : Bool := false
+  /-- number of lines read so far (the harness selects the public entry point by line number mod 12) -/
+  n : Nat := 0
+
+/-- one arithmetic operation on the model -/
+def runModel (release : Bool) (op : String) (a b c d : Int) : String :=
+  match op with
+  | "add" => showTS (checkedAddDur release ⟨a, b⟩ ⟨c, d⟩)
+  | "sub" => showTS (checkedSubDur release ⟨a, b⟩ ⟨c, d⟩)
+  | "diff" => showDur (subTsCheckedDur release ⟨a, b⟩ ⟨c, d⟩)
+  | "diffu" => showDur (subTsDur release ⟨a, b⟩ ⟨c, d⟩)
+  | "cmp" => (match cmpTS ⟨a, b⟩ ⟨c, d⟩ with | .lt => "lt" | .eq => "eq" | .gt => "gt")
+  | _ => "bad-op"
+
+/-- the same operation on the generated definitions, through the public entry point the harness uses for this
+line (`v` = line number mod 12; the private kernels have no stable name, so variant 2 of add/sub — the kernel
+called directly by the harness — is evaluated through `Instant`'s operator) -/
+def runGen (release : Bool) (v : Nat) (op : String) (a b c d : Int) : String :=
+  match op with
+  | "add" => showTS (if v % 3 == 1 then TimeGen.SystemTime_add release ⟨a, b⟩ ⟨c, d⟩ else TimeGen.Instant_add release ⟨a, b⟩ ⟨c, d⟩)
+  | "sub" => showTS (if v % 3 == 1 then TimeGen.SystemTime_sub_Duration release ⟨a, b⟩ ⟨c, d⟩
+                     else TimeGen.Instant_sub_Duration release ⟨a, b⟩ ⟨c, d⟩)
+  | "diff" => showDur (match v % 4 with
+      | 0 => TimeGen.Instant_sub release ⟨a, b⟩ ⟨c, d⟩
+      | 1 => TimeGen.SystemTime_sub release ⟨a, b⟩ ⟨c, d⟩
+      | 2 => TimeGen.Instant_duration_since release ⟨a, b⟩ ⟨c, d⟩
+      | _ => TimeGen.SystemTime_duration_since release ⟨a, b⟩ ⟨c, d⟩)
+  | "diffu" => showDur (if c == 0 && d == 0 && v % 2 == 0 then TimeGen.SystemTime_duration_since_unix_time release ⟨a, b⟩
+                        else TimeGen.MonotonicInstant_elapsed release ⟨a, b⟩ ⟨c, d⟩)
+  | "cmp" => (match cmpTS ⟨a, b⟩ ⟨c, d⟩ with | .lt => "lt" | .eq => "eq" | .gt => "gt")
+  | _ => "bad-op"
+
+def step (s : St) (line : String) : St × String :=
+  let s := { s with n := s.n + 1 }
   match Drv.words line with
-  | ["mode", "release"] => (true, "ok")
-  | ["mode", "debug"] => (false, "ok")
+  | ["mode", "release"] => ({ s with release := true, gen := false }, "ok")
+  | ["mode", "debug"] => ({ s with release := false, gen := false }, "ok")
+  | ["mode", "gen-release"] => ({ s with release := true, gen := true }, "ok")
+  | ["mode", "gen-debug"] => ({ s with release := false, gen := true }, "ok")
   | "sleep" :: req :: rest =>
     match req.toNat?, parseResp rest with
     | some req, some script =>
       let (r, slept, calls) := sleepLoop script req 0 0
       let rs := match r with | some true => "ok" | some false => "err" | none => "looping"
-      (release, s!"{rs} {slept} {calls}")
-    | _, _ => (release, "bad-op")
+      (s, s!"{rs} {slept} {calls}")
+    | _, _ => (s, "bad-op")
+  | ["d2ts", a, b] =>
+    match a.toInt?, b.toInt? with
+    | some a, some b =>
+      if 0 ≤ a ∧ a ≤ U64_MAX ∧ 0 ≤ b ∧ b < NANOS then
+        (s, showTS (if s.gen then TimeGen.TimeSpec_try_from s.release ⟨a, b⟩ else durToTS ⟨a, b⟩))
+      else (s, "bad-op")
+    | _, _ => (s, "bad-op")
   | [op, a, b, c, d] =>
     match a.toInt?, b.toInt?, c.toInt?, d.toInt? with
     | some a, some b, some c, some d =>
-      let out := match op with
-        | "add" => showTS (checkedAddDur release ⟨a, b⟩ ⟨c, d⟩)
-        | "sub" => showTS (checkedSubDur release ⟨a, b⟩ ⟨c, d⟩)
-        | "diff" => showDur (subTsCheckedDur release ⟨a, b⟩ ⟨c, d⟩)
-        | "diffu" => showDur (subTsDur release ⟨a, b⟩ ⟨c, d⟩)
-        | "cmp" => (match cmpTS ⟨a, b⟩ ⟨c, d⟩ with | .lt => "lt" | .eq => "eq" | .gt => "gt")
-        | _ => "bad-op"
-      (release, out)
-    | _, _, _, _ => (release, "bad-op")
-  | _ => (release, "bad-op")
+      (s, if s.gen then runGen s.release (s.n % 12) op a b c d else runModel s.release op a b c d)
+    | _, _, _, _ => (s, "bad-op")
+  | _ => (s, "bad-op")
 
-def main : IO Unit := Drv.run step false
+def main : IO Unit := Drv.run step {}
